@@ -100,6 +100,11 @@ class Lexer:
         self._advance()  # Skip opening quote
 
         while self._current() and self._current() != quote:
+            if self._current() in "\n\r":
+                # A line break ends the literal: report it where the line breaks
+                raise JSSyntaxError(
+                    "Unterminated string literal", self.line, self.column
+                )
             ch = self._advance()
 
             if ch == "\\":
@@ -164,10 +169,6 @@ class Lexer:
                 else:
                     # Unknown escape - just use the character
                     result.append(escape)
-            elif ch == "\n":
-                raise JSSyntaxError(
-                    "Unterminated string literal", self.line, self.column
-                )
             else:
                 result.append(ch)
 
